@@ -53,6 +53,7 @@ class LinProver:
         self.vars = {}
         self.timeout_ms = timeout_ms
         self.instances = 0
+        self.inst_budget_s = 45.0   # wall-clock cap for instantiation
 
     def var(self, m):
         v = self.vars.get(m)
@@ -79,12 +80,17 @@ class LinProver:
             targets.update(g.t.keys())
         done = set()
         insts = []
+        t_start = time.time()
         for _ in range(rounds):
+            if time.time() - t_start > self.inst_budget_s:
+                break
             new_targets = set()
             for hi, e in enumerate(self.hyps):
                 for te in e.t:
                     if not te:
                         continue
+                    if time.time() - t_start > self.inst_budget_s:
+                        return insts
                     for t in list(targets):
                         m = mono_div(t, te)
                         if m is None or mono_degree(m) > max_deg:
@@ -244,6 +250,10 @@ def prove_zero(ctx, name, x, rounds=2, max_deg=8, max_inst=6000, key=None,
     if not nz:
         ctx.stats.add('normal-form', 0.0)
         return ctx.record(name, 'unsat', 'normal-form', key=key)
+    if sum(len(p.t) for p in nz) > 60000:
+        # too large for the linearised prover within reach: candidate only
+        return ctx.record(name, 'sat', 'too-large-for-lra', key=key,
+                          candidate=True, model={})
     lp = LinProver(ctx)
     r, dt = lp.prove_zero(nz, rounds, max_deg, max_inst)
     if r == 'unsat':
